@@ -11,6 +11,7 @@ import (
 
 	"rivaas.dev/router"
 	"rivaas.dev/router/route"
+	"rivaas.dev/router/version"
 	"verif/harness/hx"
 )
 
@@ -180,6 +181,9 @@ func Build(c CaseT, ask []string, obs *ObsT) *router.Router {
 	if c.Eng.BloomK != 0 {
 		opts = append(opts, router.WithBloomFilterHashFunctions(c.Eng.BloomK))
 	}
+	if c.Eng.Version != "" {
+		opts = append(opts, router.WithVersioning(version.WithHeaderDetection("X-API-Version"), version.WithDefault(c.Eng.Version)))
+	}
 	r := router.MustNew(opts...)
 	probe := func(id int, noRoute bool) router.HandlerFunc {
 		return func(ctx *router.Context) {
@@ -204,7 +208,26 @@ func Build(c CaseT, ask []string, obs *ObsT) *router.Router {
 	for i, g := range c.Script {
 		var rt *route.Route
 		h := probe(i, false)
-		if len(g.Groups) == 0 {
+		if c.Eng.Version != "" {
+			vr := r.Version(c.Eng.Version)
+			p := g.FullPath()
+			switch g.Method {
+			case "GET":
+				rt = vr.GET(p, h)
+			case "POST":
+				rt = vr.POST(p, h)
+			case "PUT":
+				rt = vr.PUT(p, h)
+			case "PATCH":
+				rt = vr.PATCH(p, h)
+			case "DELETE":
+				rt = vr.DELETE(p, h)
+			case "HEAD":
+				rt = vr.HEAD(p, h)
+			case "OPTIONS":
+				rt = vr.OPTIONS(p, h)
+			}
+		} else if len(g.Groups) == 0 {
 			switch g.Method {
 			case "GET":
 				rt = r.GET(g.Path, h)
@@ -260,6 +283,9 @@ func Observe(c CaseT, ask []string) (o ObsT) {
 	req := httptest.NewRequest(c.Req.Method, "/", nil)
 	req.URL.Path = c.Req.Path
 	req.URL.RawPath = ""
+	if c.Eng.Version != "" {
+		req.Header.Set("X-API-Version", c.Eng.Version)
+	}
 	rec := httptest.NewRecorder()
 	r.ServeHTTP(rec, req)
 	o.Status = rec.Code
